@@ -17,7 +17,8 @@ structure ADI (α : Type) where
 
 namespace ADI
 def new (P : Nat) (length : Nat) (c : Candle α) : Res (ADI α) :=
-  if length > 0 then
+  if length = P then .err .wrongMethodParameters
+  else if length > 0 then
     let clvv := c.clv * c.volume
     (winNew P length clvv).bind fun w => .ok { cmf_sum := clvv * (length : α), window := w }
   else .ok { cmf_sum := 0, window := Window.empty }
